@@ -313,6 +313,15 @@ def r04_5_shared(repo: Repo, rep: Report):
 
     rep.rule("R11.1", "serialisation is complete, ids are term ids (shared with C11)")
     r11_1_serialisation(repo, rep)
+    # a model is valid only for the terms the engine built: a value another path learnt and this path substituted
+    # (C20 R20.1), or a word operation built with the wrong operator / an unreviewed fast path (C06), gives a model
+    # that is labelled valid and does not replay
+    from hsa.rules import c06
+    from hsa.rules.c20 import r20_1_fork_copies
+
+    r20_1_fork_copies(repo, rep)
+    for f in (c06.r06_1_zero_divisor, c06.r06_3_operator_table, c06.r06_4_wrapper_term_boundary, c06.r06_6_byte_and_signextend):
+        f(repo, rep)
 
 
 RULES = [r04_5_shared, r04_1_prefix_agreement, r04_2_refine_exact, r04_3_model_syntaxes, r04_4_list_discipline, r04_6_results_during_shutdown]
